@@ -17,6 +17,7 @@
   * Wait returns only in states where `done` holds and its own signalling finalizer has run.
 -/
 import RoProofs.Kernel.Cut
+import RoProofs.Kernel.Main2
 import RoProps.KernelTie
 namespace Ro.C06
 open Ro.Kernel
@@ -107,6 +108,130 @@ theorem kernel_done_before_run (mode : Mode) (destNil : Bool) (panicky : List Fi
     (run Expected.progs (init mode destNil panicky scripts) sched).sh.done = true :=
   (kinv_reachable mode destNil panicky scripts sched).tear.ranDone h
 
+/-! ### the same on the whole history (the predicates the harness evaluates on the recorded log) -/
+
+/-- C06 on the history: scanning the log of any run, once a closing call (Unsubscribe, Error,
+    Complete) has returned, no call whose CALL event comes later ever logs a callback-begin -/
+theorem kernel_cutLog (mode : Mode) (destNil : Bool) (panicky : List FinId) (scripts : List (List ApiCall))
+    (sched : List Tid) : cutLog (run Expected.progs (init mode destNil panicky scripts) sched).sh.log = true :=
+  (xinv_reachable mode destNil panicky scripts sched).late.cutOk
+
+/-- C06 on the history: … and every IsClosed called later returns true -/
+theorem kernel_isClosedLog (mode : Mode) (destNil : Bool) (panicky : List FinId) (scripts : List (List ApiCall))
+    (sched : List Tid) : isClosedLog (run Expected.progs (init mode destNil panicky scripts) sched).sh.log = true :=
+  (xinv_reachable mode destNil panicky scripts sched).late.closedOk
+
+/-- C06 on the history: every return event of a Wait is preceded by the run of its own finalizer
+    (which happens only when `done`: `kernel_done_before_run`) -/
+theorem kernel_waitLog (mode : Mode) (destNil : Bool) (panicky : List FinId) (scripts : List (List ApiCall))
+    (sched : List Tid) : waitLog (run Expected.progs (init mode destNil panicky scripts) sched).sh.log = true :=
+  (xinv_reachable mode destNil panicky scripts sched).wr.wait
+
+/-! ### the terminal callback has returned before `done` -/
+
+/-- C06, safe / eventually-safe mode: in every reachable state with `done`, no thread is inside, or
+    about to begin, a terminal callback (`Ctl.termPending`): when the stream ends by itself the
+    terminal callback-end precedes `done`. (With the no-op mutex and two producers this is false: the
+    loser of the status CAS sets `done` while the winner's callback runs.) -/
+theorem kernel_terminal_end_before_done (mode : Mode) (hm : mode ≠ .unsafeMode) (destNil : Bool)
+    (panicky : List FinId) (scripts : List (List ApiCall)) (sched : List Tid)
+    (hd : (run Expected.progs (init mode destNil panicky scripts) sched).sh.done = true) (t : Tid) (th : Thread)
+    (ht : (run Expected.progs (init mode destNil panicky scripts) sched).threads[t]? = some th) :
+    th.ctl.termPending = false ∧
+    (th.ctl.inside = true → ∀ k, th.ctl.head = .stmt (.callDest k) → k.isTerminal = false) := by
+  have h := ((einv_reachable mode hm destNil panicky scripts sched).ending.done hd).2 t th ht
+  exact ⟨h, fun hin k hh => not_inside_terminal h hin k hh⟩
+
+/-- C06: hence a Wait returns only after the terminal callback has returned -/
+theorem kernel_wait_after_terminal_end (mode : Mode) (hm : mode ≠ .unsafeMode) (destNil : Bool)
+    (panicky : List FinId) (scripts : List (List ApiCall)) (sched : List Tid) (t u : Tid) (f : FinId) (r : Res) (s' : St)
+    (h : step Expected.progs (run Expected.progs (init mode destNil panicky scripts) sched) t = some s')
+    (hlog : Logs (run Expected.progs (init mode destNil panicky scripts) sched) s' (.ret u (.wait f) r))
+    (v : Tid) (thv : Thread)
+    (hv : (run Expected.progs (init mode destNil panicky scripts) sched).threads[v]? = some thv) :
+    thv.ctl.termPending = false :=
+  (kernel_terminal_end_before_done mode hm destNil panicky scripts sched
+    (kernel_wait_returns_when_done mode destNil panicky scripts sched t u f r s' h hlog).2 v thv hv).1
+
+/-! ### deadlock-freedom
+
+Hypothesis (built into `Conc`): destination callbacks and teardowns are opaque actions — they do not
+call back into the same subscriber / subscription. The known self-deadlock (a teardown that calls
+Add on its own, already disposed, subscription: it runs under `subMu`, `kernel_runNow_holds_subMu`)
+is outside this hypothesis; `reentrant_teardown_deadlock_witness` shows it in the same interpreter. -/
+
+/-- C06: a thread that is unfinished and cannot move either waits for a lock whose owner is another
+    thread that CAN move, or is a Wait whose own finalizer has not run yet -/
+theorem kernel_disabled_thread (mode : Mode) (destNil : Bool) (panicky : List FinId) (scripts : List (List ApiCall))
+    (sched : List Tid) (t : Tid) (th : Thread)
+    (ht : (run Expected.progs (init mode destNil panicky scripts) sched).threads[t]? = some th)
+    (hun : th.unfinished)
+    (hdis : step Expected.progs (run Expected.progs (init mode destNil panicky scripts) sched) t = none) :
+    (∃ l u, th.ctl.head = .stmt (.lock l) ∧
+        (run Expected.progs (init mode destNil panicky scripts) sched).sh.owner l = some u ∧ u ≠ t ∧
+        ∃ s', step Expected.progs (run Expected.progs (init mode destNil panicky scripts) sched) u = some s') ∨
+    (th.ctl.head = .stmt .recv ∧ th.f ∉ (run Expected.progs (init mode destNil panicky scripts) sched).sh.ran) := by
+  have hx := xinv_reachable mode destNil panicky scripts sched
+  exact disabled_cases hx.k hx.own ht hdis hun
+
+/-- C06, no deadlock: in every reachable state with an unfinished thread, some thread is enabled —
+    or every unfinished thread is inside Wait and its finalizer has not run (nobody has closed the
+    subscription and no enabled thread is left to do so) -/
+theorem kernel_no_deadlock (mode : Mode) (destNil : Bool) (panicky : List FinId) (scripts : List (List ApiCall))
+    (sched : List Tid) (t : Tid) (th : Thread)
+    (ht : (run Expected.progs (init mode destNil panicky scripts) sched).threads[t]? = some th)
+    (hun : th.unfinished) :
+    (∃ u s', step Expected.progs (run Expected.progs (init mode destNil panicky scripts) sched) u = some s') ∨
+    (∀ (v : Tid) (thv : Thread), (run Expected.progs (init mode destNil panicky scripts) sched).threads[v]? = some thv →
+        thv.unfinished → thv.ctl.head = .stmt .recv ∧
+          thv.f ∉ (run Expected.progs (init mode destNil panicky scripts) sched).sh.ran) := by
+  by_cases hen : ∃ u s', step Expected.progs (run Expected.progs (init mode destNil panicky scripts) sched) u = some s'
+  · exact Or.inl hen
+  · right
+    intro v thv hv hunv
+    have hdis : step Expected.progs (run Expected.progs (init mode destNil panicky scripts) sched) v = none := by
+      cases hs : step Expected.progs (run Expected.progs (init mode destNil panicky scripts) sched) v with
+      | none => rfl
+      | some s' => exact absurd ⟨v, s', hs⟩ hen
+    rcases kernel_disabled_thread mode destNil panicky scripts sched v thv hv hunv hdis with ⟨l, u, _, _, _, s', hs'⟩ | h
+    · exact absurd ⟨u, s', hs'⟩ hen
+    · exact h
+
+/-- C06: Unsubscribe / IsClosed / Next / Error / Complete / Add never wait on the channel: a thread
+    in one of these calls that cannot move is waiting for a lock whose owner can move (so these
+    calls return under any fair schedule: every critical section of `mu` and `subMu` is finite) -/
+theorem kernel_only_wait_waits (mode : Mode) (destNil : Bool) (panicky : List FinId) (scripts : List (List ApiCall))
+    (sched : List Tid) (t : Tid) (th : Thread) (c : ApiCall)
+    (ht : (run Expected.progs (init mode destNil panicky scripts) sched).threads[t]? = some th)
+    (hc : th.cur = some c) (hh : th.ctl.head = .stmt .recv) : ∃ f, c = .wait f := by
+  have hx := xinv_reachable mode destNil panicky scripts sched
+  have hne : th.ctl.stack ≠ [] := head_stack_ne hh
+  obtain ⟨c', hc', _, h3⟩ := add_call_of_head hx.k.closed ht hne (Or.inr (Or.inr hh))
+  rw [hc] at hc'
+  obtain rfl := Option.some.inj hc'
+  rcases h3 with rfl | rfl
+  · -- an Add call has no receive
+    exfalso
+    have hrm := hx.k.closed.busy t th _ ht hc
+    have : (reachM .snAdd).all (fun c => match c.head with | .stmt .recv => false | _ => true) = true := by decide +kernel
+    have := localM this hrm
+    simp [hh] at this
+  · exact ⟨_, rfl⟩
+
+/-- witness for the excluded case: a teardown that re-enters Add on its own, already disposed,
+    subscription. The teardown's body is inlined where `runNow` stands (it runs under `subMu`):
+    after Unsubscribe, the Add blocks for ever on the lock its own thread holds. -/
+def reentrantTable : List (Meth × Prog) :=
+  Expected.table.map fun (m, p) =>
+    if m == .snAdd then (m, [.ifNil .teardown [.ret] [], .lock .subMu, .deferUnlock .subMu,
+      .ifFld .done 1 [.callSelf .snAdd] [.appendFinalizer]]) else (m, p)
+
+theorem reentrant_teardown_deadlock_witness :
+    let s := runRounds (lookup reentrantTable) [0] 100 (init .safe false [] [[.unsubscribe, .add 1]])
+    step (lookup reentrantTable) s 0 = none ∧ s.sh.subMu = some 0 ∧
+      (s.threads.map fun th => (th.ctl.stack.length, th.cur)) = [(2, some (.add 1))] := by
+  decide +kernel
+
 /-! ### non-vacuity -/
 
 -- thread 1 unsubscribes while thread 0 is between calls; thread 0's later Next is dropped, IsClosed says true
@@ -121,6 +246,15 @@ example : (run Expected.progs demo [0, 0, 0, 0, 0, 0, 0, 0, 0, 0, 0, 0, 0]).sh.l
 example : begins (run Expected.progs (init .safe false [] [[.next 1], [.unsubscribe]])
     [0, 0, 0, 0, 0, 1, 1, 1, 1, 1, 1, 1, 1, 1, 1, 1, 1, 1, 1, 0, 0, 0, 0]).sh.log = [.next {} 1] := by decide +kernel
 
+-- `done` after a Complete that ended the stream by itself; the waiter returned afterwards (log order: e0:C before r1:W)
+example : (runRounds Expected.progs [0, 1] 100 (init .safe false [] [[.next 1, .complete], [.wait 9]])).sh.log.filter
+    (fun e => match e with | .cbEnd _ .complete _ | .ret _ (.wait _) _ => true | _ => false)
+    = [.cbEnd 0 .complete 0, .ret 1 (.wait 9) .unit] := by decide +kernel
+-- the second alternative of `kernel_no_deadlock` is real: a Wait that nobody closes stays at its receive
+example : let s := runRounds Expected.progs [0, 1] 100 (init .safe false [] [[.next 1], [.wait 9]])
+    step Expected.progs s 0 = none ∧ step Expected.progs s 1 = none ∧
+      (s.threads.map fun th => th.ctl.stack.length) = [0, 1] ∧ s.sh.done = false := by decide +kernel
+
 end Ro.C06
 
 #print axioms Ro.KernelTie.progs_are_the_source
@@ -131,4 +265,13 @@ end Ro.C06
 #print axioms Ro.C06.kernel_unsubscribe_never_takes_mu
 #print axioms Ro.C06.kernel_unsubscribe_ctl
 #print axioms Ro.C06.kernel_wait_returns_when_done
+#print axioms Ro.C06.kernel_cutLog
+#print axioms Ro.C06.kernel_isClosedLog
+#print axioms Ro.C06.kernel_waitLog
+#print axioms Ro.C06.kernel_terminal_end_before_done
+#print axioms Ro.C06.kernel_wait_after_terminal_end
+#print axioms Ro.C06.kernel_disabled_thread
+#print axioms Ro.C06.kernel_no_deadlock
+#print axioms Ro.C06.kernel_only_wait_waits
+#print axioms Ro.C06.reentrant_teardown_deadlock_witness
 #print axioms Ro.C06.kernel_done_before_run
